@@ -75,11 +75,9 @@ from numpy import logical_and
 from numpy import logical_or
 from numpy import mod
 from numpy import ndarray
-from numpy import ones_like
 from numpy import round as np_round
 from numpy import vectorize
 from numpy import where
-from numpy import zeros_like
 from prettytable import PrettyTable
 
 from gemseo.algos._variable import TYPE_MAP
@@ -2164,7 +2162,11 @@ class DesignSpace:
         """Project a vector onto the bounds, using a simple coordinate wise approach.
 
         Args:
-            normalized: If ``True``, then the vector is assumed to be normalized.
+            normalized: If ``True``, then the vector is assumed to be normalized:
+                its normalized components are projected onto :math:`[0,1]`
+                and the other ones
+                (e.g. the components that are not bounded on both sides)
+                onto the bounds of the variables.
             x_c: The vector to be projected onto the bounds.
 
         Returns:
@@ -2176,8 +2178,12 @@ class DesignSpace:
             l_b = self.__lower_bounds_array
             u_b = self.__upper_bounds_array
         else:
-            l_b = zeros_like(x_c)
-            u_b = ones_like(x_c)
+            # Only the normalized components live in [0, 1];
+            # normalization leaves the other ones unchanged and so their bounds.
+            l_b = self.__lower_bounds_array.copy()
+            u_b = self.__upper_bounds_array.copy()
+            l_b[self.__norm_inds] = 0.0
+            u_b[self.__norm_inds] = 1.0
         x_p = array(x_c)
         l_inds = (x_c < l_b).nonzero()
         x_p[l_inds] = l_b[l_inds]
